@@ -1111,6 +1111,9 @@ class PSBT(EmbitBase):
                 counter += 1
 
             for prv, pub in derived_keypairs:
+                # already signed above with the same key, don't count it twice
+                if pub == rootpub and pub in inp.partial_sigs:
+                    continue
                 sig = prv.sign(h)
                 # sig plus sighash flag
                 inp.partial_sigs[pub] = sig.serialize() + bytes([inp_sighash])
